@@ -7,6 +7,8 @@
 (*  "parse": [n, F, D, ok, ln, lF, lD]  a QAPLIB text for (n, F, D) in some *)
 (*           line wrapping was handed to the loader; ok = 1 if it loaded,   *)
 (*           and (ln, lF, lD) is what it loaded (native entries)            *)
+(*  "bounds": [lb, ub, vals] values reported on a shipped instance vs the   *)
+(*           bounds the loaded instance declares                            *)
 (***************************************************************************)
 EXTENDS QAP, TraceIO
 VARIABLE tid
@@ -39,7 +41,14 @@ BigN(c) == (IF c.sF # c.F THEN {"stored-flows-differ"} ELSE {})
                             \cup (IF c.lb > v THEN {"true-value-below-declared-lower-bound"} ELSE {})
                             \cup (IF v > c.ub THEN {"true-value-above-declared-upper-bound"} ELSE {})
                        : k \in 1..Len(c.perms)}
-Verdict(c) == IF c.kind = "eval" THEN Eval(c) ELSE IF c.kind = "big" THEN BigN(c) ELSE Parse(c)
+\* "bounds": [lb, ub, vals: <<BigNat>>, neg]  values the objective reported on a shipped instance of any size
+Bounds(c) == (IF c.neg = 1 THEN {"declared-bound-negative"} ELSE {})
+             \cup UNION {(IF c.vals[k] = <<-1>> THEN {"reported-value-negative"} ELSE
+                          (IF ~BLe(c.lb, c.vals[k]) THEN {"reported-value-below-declared-lower-bound"} ELSE {})
+                          \cup (IF ~BLe(c.vals[k], c.ub) THEN {"reported-value-above-declared-upper-bound"} ELSE {}))
+                         : k \in 1..Len(c.vals)}
+Verdict(c) == IF c.kind = "eval" THEN Eval(c) ELSE IF c.kind = "big" THEN BigN(c)
+              ELSE IF c.kind = "bounds" THEN Bounds(c) ELSE Parse(c)
 Init == tid = 0
 Next == /\ tid < NCases /\ tid' = tid + 1
         /\ PrintT(<<"V", Cases[tid'].id, Verdict(Cases[tid'])>>)
